@@ -4,28 +4,118 @@
 
 package iprange
 
-// inrange(r, ip): membership as computed by Contains (defined by C14's contracts).
-//@ spec inrange(r ref, iparr int, ipoff int, iplen int) bool
+// ---- C14: the address set denoted by a range ----------------------------------------------------
+//
+// An address is a byte slice; every stored bound is in 16-byte form (IPv4 as ::ffff:a.b.c.d).
+// Order on 16-byte forms = lexicographic byte order = order of the pairs (be64 at 0, be64 at 8).
+// The bitwise operators in these contracts are the engine's bitand/bitor on bytes - the same terms
+// the code's & and | produce; /verif/lemmas/c14_*.smt2 prove in the theory of bit-vectors that the
+// byte-wise block bounds below denote exactly "the CIDR block without network and broadcast address".
+
+//@ pred wfRange(r *IPRange) := r != nil && len(r.left) == 16 && len(r.right) == 16
+//@ pred le16(a []byte, b []byte) := be64(inner(a), base(a)) < be64(inner(b), base(b)) || (be64(inner(a), base(a)) == be64(inner(b), base(b)) && be64(inner(a), base(a) + 8) <= be64(inner(b), base(b) + 8))
+// the 16-byte form of a 4-byte address compared with a 16-byte bound
+//@ pred le16from4(a []byte, b []byte) := 0 < be64(inner(b), base(b)) || (0 == be64(inner(b), base(b)) && 281470681743360 + be32(inner(a), base(a)) <= be64(inner(b), base(b) + 8))
+//@ pred ge16from4(a []byte, b []byte) := 0 == be64(inner(b), base(b)) && 281470681743360 + be32(inner(a), base(a)) >= be64(inner(b), base(b) + 8)
+//@ pred inrange(r *IPRange, ip []byte) := (len(ip) == 16 && le16(r.left, ip) && le16(ip, r.right)) || (len(ip) == 4 && ge16from4(ip, r.left) && le16from4(ip, r.right))
 
 //@ func IPRange.Contains results(ok)
 //@   tags C14,C15,C04
-//@   trusted
+//@   requires wfRange(r)
+//@   ensures[C14] len(ip) == 16 ==> ok == (le16(r.left, ip) && le16(ip, r.right)) @inclusive-interval-in-byte-order
+//@   ensures[C14] len(ip) == 4 ==> ok == (ge16from4(ip, r.left) && le16from4(ip, r.right)) @four-byte-address-treated-as-its-mapped-form
+//@   ensures[C14] len(ip) != 4 && len(ip) != 16 ==> !ok @not-an-address-is-never-a-member
+//@   ensures ok == inrange(r, ip)
+
+// ---- C14: parsing ---------------------------------------------------------------------------------
+//
+// Text -> bytes is net.ParseIP's job (parsedok / parsedbyte, assumed); these contracts say which
+// specifications are accepted and which bytes the bounds get.
+
+//@ pred parsed4(t str) := parsedbyte(t, 0) == 0 && parsedbyte(t, 1) == 0 && parsedbyte(t, 2) == 0 && parsedbyte(t, 3) == 0 && parsedbyte(t, 4) == 0 && parsedbyte(t, 5) == 0 && parsedbyte(t, 6) == 0 && parsedbyte(t, 7) == 0 && parsedbyte(t, 8) == 0 && parsedbyte(t, 9) == 0 && parsedbyte(t, 10) == 255 && parsedbyte(t, 11) == 255
+//@ pred bytesAre(ip []byte, t str) := len(ip) == 16 && ip[0] == parsedbyte(t, 0) && ip[1] == parsedbyte(t, 1) && ip[2] == parsedbyte(t, 2) && ip[3] == parsedbyte(t, 3) && ip[4] == parsedbyte(t, 4) && ip[5] == parsedbyte(t, 5) && ip[6] == parsedbyte(t, 6) && ip[7] == parsedbyte(t, 7) && ip[8] == parsedbyte(t, 8) && ip[9] == parsedbyte(t, 9) && ip[10] == parsedbyte(t, 10) && ip[11] == parsedbyte(t, 11) && ip[12] == parsedbyte(t, 12) && ip[13] == parsedbyte(t, 13) && ip[14] == parsedbyte(t, 14) && ip[15] == parsedbyte(t, 15)
+//@ spec pnum(t str, k int) int = ((parsedbyte(t, k) * 256 + parsedbyte(t, k + 1)) * 256 + parsedbyte(t, k + 2)) * 256 + parsedbyte(t, k + 3)
+//@ spec phi(t str) int = pnum(t, 0) * 4294967296 + pnum(t, 4)
+//@ spec plo(t str) int = pnum(t, 8) * 4294967296 + pnum(t, 12)
+//@ pred ple(a str, b str) := phi(a) < phi(b) || (phi(a) == phi(b) && plo(a) <= plo(b))
+
+//@ func lastByMask results(ret)
+//@   tags C14,C04
+//@   requires len(ip) <= len(mask) && len(ip) <= 16
+//@   ensures ret != nil && fresh(ret.$arr) && ret.$off == 0 && len(ret) == len(ip) && cap(ret) == len(ip)
+//@   ensures[C14] forall x {raw(ret, x)} :: 0 <= x && x < len(ip) ==> raw(ret, x) == (raw(ip, base(ip) + x) | (255 - raw(mask, base(mask) + x))) @host-bits-set
+//@   loop 1 invariant forall x {raw(ret, x)} :: 0 <= x && x < $idx ==> raw(ret, x) == (raw(ip, base(ip) + x) | (255 - raw(mask, base(mask) + x))) @bytes-so-far
+
+//@ func parseTwo results(r)
+//@   tags C14,C04
+//@   requires 0 <= sepIdx && sepIdx < len(s)
+//@   let a = s[:sepIdx]
+//@   let b = s[sepIdx+1:]
+//@   ensures[C14] (r != nil) == (sepIdx < len(s) - 1 && parsedok(a) && parsedok(b) && (parsed4(a) == parsed4(b)) && ple(a, b)) @accepted-iff-two-addresses-of-one-family-in-order
+//@   ensures[C14] r != nil ==> wfRange(r) && bytesAre(r.left, a) && bytesAre(r.right, b) @bounds-are-the-two-addresses
+
+// byte k of the 4-byte mask given by the text after '/': a netmask in address form, or a prefix length
+//@ spec cm(b str, k int) int = parsedok(b) ? parsedbyte(b, 12 + k) : mbyte(atoival(b), k)
+// a v4 block of one or two addresses keeps its network and broadcast address
+//@ pred small4(b str) := cm(b, 0) == 255 && cm(b, 1) == 255 && cm(b, 2) == 255 && cm(b, 3) >= 254
+//@ pred cidrAccepted(a str, b str) := len(b) > 0 && parsedok(a) && (parsed4(a) ? (parsedok(b) ? parsed4(b) && contig4(cm(b, 0), cm(b, 1), cm(b, 2), cm(b, 3)) : isnum(b) && 0 <= atoival(b) && atoival(b) <= 32) : !parsedok(b) && isnum(b) && 0 <= atoival(b) && atoival(b) <= 128)
+//@ pred cidrBounds4(r *IPRange, a str, b str) := mapped(r.left) && mapped(r.right) && r.left[12] == (parsedbyte(a, 12) & cm(b, 0)) && r.left[13] == (parsedbyte(a, 13) & cm(b, 1)) && r.left[14] == (parsedbyte(a, 14) & cm(b, 2)) && r.left[15] == (small4(b) ? (parsedbyte(a, 15) & cm(b, 3)) : ((parsedbyte(a, 15) & cm(b, 3)) | 1)) && r.right[12] == ((parsedbyte(a, 12) & cm(b, 0)) | (255 - cm(b, 0))) && r.right[13] == ((parsedbyte(a, 13) & cm(b, 1)) | (255 - cm(b, 1))) && r.right[14] == ((parsedbyte(a, 14) & cm(b, 2)) | (255 - cm(b, 2))) && r.right[15] == (small4(b) ? ((parsedbyte(a, 15) & cm(b, 3)) | (255 - cm(b, 3))) : (((parsedbyte(a, 15) & cm(b, 3)) | (255 - cm(b, 3))) &^ 1))
+//@ pred cidrBounds6(r *IPRange, a str, p int) := (forall x {raw(r.left, x)} :: base(r.left) <= x && x < base(r.left) + 15 ==> raw(r.left, x) == (parsedbyte(a, x - base(r.left)) & mbyte(p, x - base(r.left)))) && r.left[15] == (p >= 127 ? (parsedbyte(a, 15) & mbyte(p, 15)) : ((parsedbyte(a, 15) & mbyte(p, 15)) | 1)) && (forall x {raw(r.right, x)} :: base(r.right) <= x && x < base(r.right) + 15 ==> raw(r.right, x) == ((parsedbyte(a, x - base(r.right)) & mbyte(p, x - base(r.right))) | (255 - mbyte(p, x - base(r.right))))) && r.right[15] == (p >= 127 ? ((parsedbyte(a, 15) & mbyte(p, 15)) | (255 - mbyte(p, 15))) : (((parsedbyte(a, 15) & mbyte(p, 15)) | (255 - mbyte(p, 15))) &^ 1))
+
+//@ func parseCIDRorMask results(r)
+//@   tags C14,C04
+//@   requires 0 <= sepIdx && sepIdx < len(s)
+//@   let a = s[:sepIdx]
+//@   let b = s[sepIdx+1:]
+//@   ensures[C14] (r != nil) == cidrAccepted(a, b) @accepted-exactly-the-documented-forms
+//@   ensures[C14] r != nil ==> wfRange(r) @bounds-in-16-byte-form
+//@   ensures[C14] r != nil && parsed4(a) ==> cidrBounds4(r, a, b) @v4-block-bounds
+//@   ensures[C14] r != nil && !parsed4(a) ==> cidrBounds6(r, a, atoival(b)) @v6-block-bounds
+
+// ---- C14: the dispatcher -------------------------------------------------------------------------
+//
+// `i` is any index: the clauses hold for the position of the first '/' or '-' whatever it is.
+
+//@ pred issep(c int) := c == '/' || c == '-'
+//@ pred firstsep(s str, i int) := 0 <= i && i < len(s) && issep(s[i]) && (forall j {s[j]} :: 0 <= j && j < i ==> !issep(s[j]))
+//@ pred nosep(s str) := forall j {s[j]} :: 0 <= j && j < len(s) ==> !issep(s[j])
+
+//@ func ParseIPRange results(r, err)
+//@   tags C14,C04
+//@   any i int
+//@   ensures[C14] (err == nil) == (r != nil) && (r != nil ==> wfRange(r)) @error-or-range
+//@   ensures[C14] nosep(s) ==> ((err == nil) == parsedok(s)) && (err == nil ==> bytesAre(r.left, s) && bytesAre(r.right, s)) @single-address
+//@   ensures[C14] firstsep(s, i) && s[i] == '-' ==> ((err == nil) == (i < len(s) - 1 && parsedok(s[:i]) && parsedok(s[i+1:]) && (parsed4(s[:i]) == parsed4(s[i+1:])) && ple(s[:i], s[i+1:]))) && (err == nil ==> bytesAre(r.left, s[:i]) && bytesAre(r.right, s[i+1:])) @first-last-range
+//@   ensures[C14] firstsep(s, i) && s[i] == '/' ==> ((err == nil) == cidrAccepted(s[:i], s[i+1:])) @block-accepted-exactly-the-documented-forms
+//@   ensures[C14] firstsep(s, i) && s[i] == '/' && err == nil && parsed4(s[:i]) ==> cidrBounds4(r, s[:i], s[i+1:]) @v4-block-bounds
+//@   ensures[C14] firstsep(s, i) && s[i] == '/' && err == nil && !parsed4(s[:i]) ==> cidrBounds6(r, s[:i], atoival(s[i+1:])) @v6-block-bounds
+//@   loop 1 invariant ret == nil && (forall j {s[j]} :: 0 <= j && j < $idx ==> !issep(s[j])) @no-separator-so-far
+
+//@ func New results(r)
+//@   tags C14,C04
+//@   ensures[C14] r != nil ==> wfRange(r) && le16(r.left, r.right) @ordered-16-byte-bounds
+//@   ensures[C14] len(left) != len(right) ==> r == nil @mixed-sizes-rejected
+//@   ensures[C14] len(left) == 16 && len(right) == 16 ==> (r != nil) == le16(left, right) && (r != nil ==> r.left == left && r.right == right) @sixteen-byte-bounds-kept
+
+//@ func IPRange.UnmarshalText results(err)
+//@   tags C14,C04
 //@   requires r != nil
-//@   ensures ok == inrange(r, ip.$arr, ip.$off, len(ip))
+//@   modifies r.left, r.right
+//@   ensures[C14] err == nil ==> wfRange(r) @configured-range-is-well-formed
 
 //@ func filteringListener.shouldAccept results(ok)
 //@   tags C15,C04
-//@   requires l != nil && l.r != nil
-//@   ensures[C15] ok == (inrange(l.r, ip.$arr, ip.$off, len(ip)) != l.invert) @whitelist-or-inverted
+//@   requires l != nil && wfRange(l.r)
+//@   ensures[C15] ok == (inrange(l.r, ip) != l.invert) @whitelist-or-inverted
 
 //@ func filteringListener.Accept results(c, err)
 //@   tags C15,C04
-//@   requires l != nil && l.Listener != nil && l.r != nil
+//@   requires l != nil && l.Listener != nil && wfRange(l.r)
 //@   requires forall g {lacc[g]} :: lacc[g] ==> allocated(g) @only-existing-connections-were-accepted-before
 //@   modifies lacc, iofaults, connclosed
 //@   ensures[C15] err == nil ==> c != nil && !connclosed[c] && lacc[c] && !old(lacc[c]) @an-accepted-connection-is-returned-open
-//@   ensures[C15] err == nil && typeis(remoteaddr(c), "*net.TCPAddr") ==> inrange(l.r, ofield(remoteaddr(c), "net.TCPAddr.IP.$arr"), ofield(remoteaddr(c), "net.TCPAddr.IP.$off"), ofield(remoteaddr(c), "net.TCPAddr.IP.$len")) != l.invert @tcp-peer-admitted-by-the-rule
-//@   ensures[C15] err == nil && typeis(remoteaddr(c), "*net.IPAddr") ==> inrange(l.r, ofield(remoteaddr(c), "net.IPAddr.IP.$arr"), ofield(remoteaddr(c), "net.IPAddr.IP.$off"), ofield(remoteaddr(c), "net.IPAddr.IP.$len")) != l.invert @ip-peer-admitted-by-the-rule
+//@   ensures[C15] err == nil && typeis(remoteaddr(c), "*net.TCPAddr") ==> inrange(l.r, mkslice(ofield(remoteaddr(c), "net.TCPAddr.IP.$arr"), ofield(remoteaddr(c), "net.TCPAddr.IP.$off"), ofield(remoteaddr(c), "net.TCPAddr.IP.$len"))) != l.invert @tcp-peer-admitted-by-the-rule
+//@   ensures[C15] err == nil && typeis(remoteaddr(c), "*net.IPAddr") ==> inrange(l.r, mkslice(ofield(remoteaddr(c), "net.IPAddr.IP.$arr"), ofield(remoteaddr(c), "net.IPAddr.IP.$off"), ofield(remoteaddr(c), "net.IPAddr.IP.$len"))) != l.invert @ip-peer-admitted-by-the-rule
 //@   ensures[C15] forall g {lacc[g]} :: lacc[g] && !old(lacc[g]) && g != c ==> connclosed[g] @every-rejected-connection-is-closed
 //@   ensures[C15] forall g {connclosed[g]} :: old(lacc[g]) ==> connclosed[g] == old(connclosed[g]) @other-connections-untouched
 //@   loop 1 invariant forall g {lacc[g]} :: lacc[g] && !old(lacc[g]) ==> connclosed[g] @rejected-so-far-are-closed
